@@ -30,9 +30,9 @@ PROP = {'drive': ['Shape'],
              'SeqContext1/2/3, ChainedSeqContext1/2/3, GPOS 1.1 1.2 2.1 2.2 3.1 4.1 6.1) except GPOS 5.1, whose '
              'apply is a stub returning -1 in the repository (declared unimplemented; cases containing it are '
              'skipped and counted)',
-             'Layouter (layout.go in the repository root: buffer reuse, font.GlyphWidth(gid) with an '
-             'out-of-range gid, DESIGN 9 #34) is not modelled; history independence is proved for '
-             'gtab.Context only',
+             'Layouter (layout.go in the repository root) is modelled in C15: C15_pipeline composes this engine '
+             'model, and histories of several strings on one Layouter are in the stream layout.pipeline; history '
+             'independence is proved here for gtab.Context',
              'independence of map iteration order: Context.Apply ranges over no map (coverage, class and set '
              'maps are only looked up); FindLookups is C15'],
  'modelled_not_verified': ['Go maps as association lists (first entry wins; the harness sends distinct sorted '
